@@ -37,6 +37,7 @@ type interp struct {
 	sim      bool                  // the key loop is not a readable counting loop: the scan phase is executed (sim.go)
 	fkeyObj  *types.Func
 	binds    []paramBind // helper parameters <- caller arguments
+	tableObj types.Object // the command table consulted before the interpreter runs (set by table)
 }
 
 type paramBind struct {
